@@ -62,7 +62,16 @@ def c08_2(ctx):
         ctx.fail(fn, fn.node, 'presync no longer takes the fill value from self.default')
     # the branch for differing column sets = else-branch of `len(set(cols)) == 1`
     split = [n for n in ast.walk(fn.node) if isinstance(n, ast.If) and N(n.test) == NS('len(set(cols)) == 1')]
+    if not split:
+        loose = [n for n in ast.walk(fn.node) if isinstance(n, ast.If) and 'cols' in names_in(n.test) and any(isinstance(c, ast.Call) and call_name(c) in ('frozenset', 'sorted', 'set') and not N(c) == 'set(cols)' for c in ast.walk(n.test))]
+        if loose:
+            ctx.fail(fn, loose[0], 'the "all frames have the same column headers" case compares the headers as SETS (`%s`): frames with the same names in a different order then take the positional path, and a positional column grab pairs x with y' % U(loose[0].test)[:90],
+                     witness="add_(a[['x','y']], b[['y','x']])")
+            return
     ctx.need(len(split) == 1, 'same-columns / different-columns split not found in presync.wrapped')
+    cd = [s_ for s_ in ast.walk(fn.node) if isinstance(s_, ast.Assign) and U(s_.targets[0]) == 'cols']
+    if not cd or N(cd[0].value) != NS('[tuple(ts.columns) for ts in tss if is_df(ts) and ts.shape[1] > 1]'):
+        ctx.fail(fn, cd[0] if cd else fn.node, 'column headers are not collected as ordered tuples of every multi-column frame')
     calls_else = [c for s in split[0].orelse for c in calls_in(s, 'df_column')]
     calls_same = [c for s in split[0].body for c in calls_in(s, 'df_column')]
     ctx.at_least(6, len(calls_else), 'df_column calls where columns can be missing')
@@ -93,6 +102,13 @@ def c08_2(ctx):
     miss = [r for r in returns_of(f3.node) if U(r.value) == 'default']
     if len(miss) < 2:
         ctx.fail(f3, f3.node, '_df_column no longer returns the default for a missing column')
+    # a positional grab is only legitimate when no column name was given
+    for p in paths(f3.body, bound=4096):
+        if p.term == 'return' and p.value is not None and 'iloc[:, i]' in U(p.value):
+            ctx.count(1)
+            if not p.assumes(NS('column is None and i is not None'), True):
+                ctx.fail(f3, p.node, 'a column is grabbed by POSITION (%s) on a path where a column name was given [%s]: frames with the same names in a different order are paired by position' % (U(p.value), ' & '.join(p.cond_texts())[:140]),
+                         witness="add_(a[['x','y']], b[['y','x']])")
     # a frame that has the column must return that column, not the default
     has = [n for n in ast.walk(f3.node) if isinstance(n, ast.If) and N(n.test) == NS('column in ts.columns')]
     if not has or N(has[0].body[0].value) != 'ts[column]':
@@ -313,3 +329,15 @@ def c08_7(ctx):
     idx = single_assign(fn, '_idx')
     if idx is None or N(idx) != NS("kwargs.pop('join', self.index)"):
         ctx.fail(fn, fn.node, 'the join keyword no longer overrides the decorator index policy')
+
+
+@obligation('C08.8', 'FORWARDING (constructor)', '_pandas:presync.__init__',
+            "the neutral element declared on a kernel (0.0 for + and -) must reach the wrapper unchanged: `default or nan` replaces 0.0 by NaN",
+            axioms=('A1',))
+def c08_8(ctx):
+    init_forwarding(ctx, 'presync')
+    f = ctx.repo.fn('_pandas:presync.__init__')
+    ctx.count(1, f.where())
+    d = f.defaults().get('default')
+    if d is None or N(d) not in ('np.nan', "float('nan')"):
+        ctx.fail(f, f.node, 'the default of `default` is %s, expected np.nan' % (U(d) if d is not None else 'missing'))
